@@ -217,6 +217,16 @@ func (fr *frame) visit(instr ssa.Instruction) continuation {
 		fr.set(instr, m.unop(instr, fr.get(instr.X)))
 
 	case *ssa.BinOp:
+		if instr.Op == token.SHL || instr.Op == token.SHR {
+			// a negative shift count is a run-time panic
+			if b, ok := instr.Y.Type().Underlying().(*types.Basic); ok && b.Info()&types.IsInteger != 0 && b.Info()&types.IsUnsigned == 0 {
+				if yt, ok := fr.get(instr.Y).(*Term); ok {
+					if m.branch(m.tt.Bin(OpSLt, yt, m.tt.Const(yt.Sort, 0)), "negative shift amount") {
+						panic(m.runtimePanic("negative shift amount"))
+					}
+				}
+			}
+		}
 		fr.set(instr, m.binop(instr.Op, instr.X.Type(), fr.get(instr.X), fr.get(instr.Y)))
 
 	case *ssa.Call:
